@@ -127,10 +127,12 @@ def reg_check(ctx, stacks, strict, n_tlc, n_rand, steps=40, profiles=('all',), t
         for prof in profiles:
             if left <= 0:
                 break
-            k = min(per_file, left)
+            k = min(per_file, left, max(1, -(-n_rand // len(profiles))))
             t = os.path.join(td, 'rand%d.ndjson' % i)
+            # every other batch runs without the per-call snapshots (a snapshot lists and resolves everything,
+            # which refreshes whatever an implementation keeps between calls before it could go stale)
             run_reg(ctx, vh, t, stacks=stacks, n=k, steps=steps, seed=ctx.seed * 1000 + i, profile=prof,
-                    extra=['-honest'] if honest else [])
+                    extra=(['-honest'] if honest else []) + (['-snap=false'] if (i + ctx.seed) % 2 == 1 else []))
             traces.append(t)
             left -= k
             i += 1
